@@ -93,7 +93,26 @@ InitProbes ==
             [declared |-> u, actual |-> t])
       : u \in Tys, t \in Tys }
 
-Probes == CASE Part = "call" -> CallProbes [] Part = "method" -> MethodProbes [] Part = "ctor" -> CtorProbes
+\* --- tuple-typed values: a tuple conforms element by element ---------------------------------------------------------
+\* the value arrives TYPED (result of a function declared to return (T1, T2)), flows into a parameter of type (U1, U2), is taken apart
+\* there and each component is used at its declared type (so that a wrongly accepted program goes wrong when it runs: C04)
+TT == {"Int", "Str", "Bool"}
+TupTy(a, b) == "(" \o a \o ", " \o b \o ")"
+UseAt(ty, v) == CASE ty = "Int" -> Bin("-", Var(v), IntL(1)) [] ty = "Str" -> Bin("+", Var(v), StrL("!")) [] ty = "Bool" -> Bin("and", Var(v), BoolL(TRUE))
+TupleProbes ==
+    { Probe("tuple-arg", << Fun("mk", <<>>, TupTy(q[1], q[2]), <<>>, <<Expr(TupL(<<Lit(q[1]), Lit(q[2])>>))>>),
+                            Fun("use", <<Param("p", TupTy(q[3], q[4]), Absent)>>, "Int", <<>>,
+                                <<DefTup(<<"x", "y">>, TRUE, Var("p")), Def("x2", TRUE, q[3], UseAt(q[3], "x")), Def("y2", TRUE, q[4], UseAt(q[4], "y")), Expr(IntL(0))>>) >>,
+            <<>>, <<Expr(Call("use", <<Call("mk", <<>>)>>))>>, Sub(q[3], q[1]) /\ Sub(q[4], q[2]),
+            [declared |-> <<q[3], q[4]>>, actual |-> <<q[1], q[2]>>])
+      : q \in TT \X TT \X TT \X TT }
+  \cup
+    { Probe("tuple-init", << Fun("mk", <<>>, TupTy(q[1], q[2]), <<>>, <<Expr(TupL(<<Lit(q[1]), Lit(q[2])>>))>>) >>, <<>>,
+            <<Def("tv", TRUE, TupTy(q[3], q[4]), Call("mk", <<>>))>>, Sub(q[3], q[1]) /\ Sub(q[4], q[2]),
+            [declared |-> <<q[3], q[4]>>, actual |-> <<q[1], q[2]>>])
+      : q \in TT \X TT \X TT \X TT }
+
+Probes == CASE Part = "tuple" -> TupleProbes [] Part = "call" -> CallProbes [] Part = "method" -> MethodProbes [] Part = "ctor" -> CtorProbes
             [] Part = "return" -> {p \in ReturnProbes : p.note.shape = "nested" \/ p.note.inner = <<>>}
             [] Part = "init" -> InitProbes
 
@@ -107,7 +126,7 @@ Admissible(c, p) == TRUE
 
 VARIABLE c
 Init == c \in { x \in Cases : /\ (x.hoist => Len(x.ctx) > 0 /\ x.kind \notin {"return", "return-method", "field-init", "call-result"}
-                                             /\ x.note.form = "var")
+                                             /\ x.kind \notin {"tuple-arg", "tuple-init"} /\ x.note.form = "var")
                               /\ (x.kind \in {"return", "return-method", "field-init"} => x.ctx = <<>>) }
 Next == UNCHANGED c
 Emit == PrintT("@@" \o ToJson(c))
